@@ -52,13 +52,13 @@ package core
 //@+   ite(t == DutyPrepareAggregator || t == DutyPrepareSyncContribution, 2*time.Duration(spe)*sd, sd))))
 
 //@ func NewDutyDeadlineFunc$1
-//@ props C16
+//@ props C16 C06 C07
 //@ ensures r1 <==> canExpire(duty)
 //@ ensures r1 ==> r0 == genesisTime.Add(slotDuration * time.Duration(duty.Slot)).Add(durationOf(duty.Type, slotDuration, slotsPerEpoch) + slotDuration/marginFactor)
 //@ canary r1
 
 //@ func getCurrDuty
-//@ props C16
+//@ props C16 C06 C07
 //@ ensures forallk(d, duties, res(1, deadlineFunc(d)) ==> !res(0, deadlineFunc(d)).Before(r1))
 //@ ensures r1 == time.Date(9999, 1, 1, 0, 0, 0, 0, time.UTC) || (has(duties, r0) && res(1, deadlineFunc(r0)) && r1 == res(0, deadlineFunc(r0)))
 //@ ensures !r1.After(time.Date(9999, 1, 1, 0, 0, 0, 0, time.UTC))
@@ -69,7 +69,7 @@ package core
 //@ loop 1 invariant !currDeadline.After(time.Date(9999, 1, 1, 0, 0, 0, 0, time.UTC))
 
 //@ func (d *deadliner) run
-//@ props C16
+//@ props C16 C06 C07
 //@ callreq send d.deadlineChan: a1 == currDuty
 //@ callreq send d.deadlineChan: forallk(x, duties, res(1, deadlineFunc(x)) ==> !res(0, deadlineFunc(x)).Before(currDeadline))
 //@ callreq send d.deadlineChan: currDeadline == time.Date(9999, 1, 1, 0, 0, 0, 0, time.UTC) || (has(duties, currDuty) && currDeadline == res(0, deadlineFunc(currDuty)))
@@ -556,6 +556,6 @@ package core
 
 // ---- C16: Add hands the duty to the owning goroutine and returns its verdict -------------------------
 //@ func (d *deadliner) Add
-//@ props C16
+//@ props C16 C06 C07
 //@ callreq send d.inputChan: a1.duty == duty && a1.success == success
 //@ ensures ncalls("send d.inputChan") <= 1
